@@ -89,7 +89,7 @@ def run(ctx, chk):
                 elif el[0] == "agg" and len(el[4]) == 2 and bio.adts.get(el[1]) and bio.adts[el[1]]["kind"] == "struct":
                     fl = bio.adts[el[1]]["variants"][0]["fields"]
                     comps = [(fl[0]["name"], el[4][0]), (fl[1]["name"], el[4][1])]
-                src = aa_el = None
+                src = aa_el = window = None
                 sel = [None, None]
                 for nm, t in comps or []:
                     if t[0] == "agg" and t[1] == am.ty:
@@ -98,6 +98,11 @@ def run(ctx, chk):
                         a = t[2][0]
                         if a[0] == "seqview" and a[1][0] == "static":
                             src, sel[0] = a[1][1], nm
+                        elif a[0] == "sslice" and a[1][0] == "seqview" and a[1][1][0] == "static":
+                            # symbols [lo, hi) of a longer literal (C03 R-index, imported): the row is that window
+                            lo, hi = nf.poly(a[2]), nf.poly(a[3]) if a[3] is not None else None
+                            if hi is not None and all(not m for m in lo) and all(not m for m in hi):
+                                src, sel[0], window = a[1][1][1], nm, (lo.get((), 0), hi.get((), 0))
                 if src is None or aa_el is None:
                     chk.cannot("T-iupac-rows", init_fn, "row is not a pair (iupac!(..).into(), Amino::X): " + show(el)[:120], ib["span"])
                     continue
@@ -108,6 +113,8 @@ def run(ctx, chk):
                     continue
                 el = ("tuple", (None, aa_el))
                 syms, args = static_symbols(cfg, src, code_sym, iu.bits)
+                if syms is not None and window is not None:
+                    syms = syms[window[0]:window[1]] if 0 <= window[0] <= window[1] <= len(syms) else None
                 if syms is None or None in syms:
                     chk.cannot("T-iupac-rows", init_fn, "static %s not evaluated to IUPAC symbols" % src, ib["span"])
                     continue
